@@ -684,6 +684,8 @@ func (g *c14Gen) craftedHellos(c *c14Run) {
 			"k4-empty-ext-block":      {},
 			"k4-dup-curves":           c14Concat(curves(0, 41), curves(0, 23)),
 			"k4-dup-sigalgs":          c14Concat(sigs(7, 4), sigs(4, 3)),
+			"k4-dup-curves-multi":     c14Concat(curves(0, 41, 0, 23), curves(0, 24, 0, 25, 0, 41)),
+			"k4-dup-sigalgs-multi":    c14Concat(sigs(7, 4, 7, 5, 7, 6), sigs(4, 3, 7, 4)),
 			"k4-dup-alpn":             c14Concat(alpn("h2"), alpn("x")),
 			"k4-dup-sni":              c14Concat(sni(name(0, "a.example")), sni(name(0, "b.example"))),
 			"k4-dup-tca":              c14Concat(tca([]byte{0}), tca([]byte{0})),
